@@ -71,6 +71,15 @@ def build(ck):
 
 
 # ------------------------------------------------------------------------------- generators
+def qk(ck):
+    """quick volume? (a run whose proofs / table tie are broken searches at thorough volume)"""
+    return ck.quick() and not getattr(ck, "c05_intense", False)
+
+
+def sc(ck, q, t):
+    return q if qk(ck) else t
+
+
 def split_at(msg, cuts):
     cuts = sorted(set(c for c in cuts if 0 <= c <= len(msg)))
     out, prev = [], 0
@@ -92,12 +101,12 @@ def gen_digest_cases(ck, rng, names):
     cases = []
     for name in names:
         B, _ = DIGESTS[name]
-        N = ck.scale(2 * B + 17, 2100)
-        nrand = ck.scale(3, 64)
-        small = ck.scale(20, 48)
+        N = sc(ck, 2 * B + 17, 2100)
+        nrand = sc(ck, 3, 64)
+        small = sc(ck, 20, 48)
         lens = list(range(0, N + 1))
         for L in lens:
-            if not ck.quick() and L > 2 * B + 40 and L % 7 not in (0, 3):
+            if not qk(ck) and L > 2 * B + 40 and L % 7 not in (0, 3):
                 # thorough: all lengths up to 2B+40, beyond that 2 of 7 residues + block edges
                 if (L % B) not in (0, 1, B - 1) and ((L + 9) % B) not in (0, 1, B - 1) and ((L + 17) % B) not in (0, 1, B - 1):
                     continue
@@ -113,7 +122,7 @@ def gen_digest_cases(ck, rng, names):
             cutsets.append([B - 1, B + 1])
             cutsets.append([1, B, 2 * B])
             # random k-splits
-            nr = nrand if (ck.quick() or L <= 2 * B + 40) else 6
+            nr = nrand if (qk(ck) or L <= 2 * B + 40) else 6
             for _ in range(nr):
                 k = 1 + rng.below(6)
                 cutsets.append([rng.below(L + 1) for _ in range(k)])
@@ -131,7 +140,7 @@ def gen_hmac_cases(ck, rng, names):
     cases = []
     for name in names:
         B, R = DIGESTS[name]
-        reps = ck.scale(1, 6)
+        reps = sc(ck, 1, 6)
         for kl in range(0, 2 * B + 2):
             for _ in range(reps):
                 key = rng.bytes(kl)
@@ -149,7 +158,7 @@ def gen_shake_cases(ck, rng):
     cases = []
     for name in KECCAK_DIGESTS:
         r, _ = DIGESTS[name]
-        n = ck.scale(40, 700)
+        n = sc(ck, 40, 700)
         for i in range(n):
             ml = rng.choice([0, 1, r - 1, r, r + 1, 2 * r - 1, 2 * r, rng.below(2 * r + 17), rng.below(30)])
             msg = rng.bytes(ml)
@@ -174,7 +183,7 @@ def gen_sponge_cases(ck, rng):
     caps = list(range(8, 1600, 8))
     # rejected capacities
     cases.append(["k.init 0", "k.abs 00", "k.init 7", "k.init 1600", "k.init 1593", "k.init 12", "k.init 1592", "k.dump"])
-    per_cap = ck.scale(3, 24)
+    per_cap = sc(ck, 3, 24)
     for cap in caps:
         r = (1600 - cap) // 8
 
@@ -209,7 +218,7 @@ def gen_sponge_cases(ck, rng):
             ops.append("k.dump")
             cases.append(ops)
     # prng
-    for i in range(ck.scale(60, 1500)):
+    for i in range(sc(ck, 60, 1500)):
         cap = rng.choice([256, 512, 576, 1024, 8, 1592, rng.choice(caps)])
         ops = ["p.init %d" % cap]
         if rng.chance(1, 10):
@@ -225,7 +234,7 @@ def gen_sponge_cases(ck, rng):
 
 def gen_perm_cases(ck, rng):
     states = [bytes(200), bytes([0xff]) * 200, bytes(range(200)), bytes([0xaa, 0x55] * 100)]
-    nbits = ck.scale(64, 1600)
+    nbits = sc(ck, 64, 1600)
     step = 1600 // nbits
     for i in range(0, 1600, step):
         b = bytearray(200)
@@ -235,7 +244,7 @@ def gen_perm_cases(ck, rng):
         b = bytearray(200)
         b[8 * lane:8 * lane + 8] = b"\xff" * 8
         states.append(bytes(b))
-    for i in range(ck.scale(200, 20000)):
+    for i in range(sc(ck, 200, 20000)):
         states.append(rng.bytes(200))
     return [["k.perm " + s.hex() for s in ch] for ch in vf.chunks(states, 10)]
 
@@ -247,7 +256,7 @@ def gen_chacha_cases(ck, rng):
 
     def ln():
         return rng.choice(lens + [rng.below(200), rng.below(20), rng.below(70)])
-    n = ck.scale(500, 12000)
+    n = sc(ck, 500, 12000)
     for i in range(n):
         ops = []
         if rng.chance(1, 5):
@@ -293,12 +302,12 @@ def gen_ref_cases(ck, rng):
     for name in DIGESTS:
         B, _ = DIGESTS[name]
         for L in sorted(set([0, 1, B - 9, B - 8, B - 1, B, B + 1, 2 * B - 17, 2 * B - 16, 2 * B, 2 * B + 17] +
-                            [rng.below(3 * B) for _ in range(ck.scale(6, 60))])):
+                            [rng.below(3 * B) for _ in range(sc(ck, 6, 60))])):
             if L < 0:
                 continue
             msg = rng.bytes(L)
             cases.append(digest_case(name, split_at(msg, [rng.below(L + 1), rng.below(L + 1)])))
-        for kl in sorted(set([0, 1, B - 1, B, B + 1, 2 * B + 1] + [rng.below(2 * B + 2) for _ in range(ck.scale(4, 40))])):
+        for kl in sorted(set([0, 1, B - 1, B, B + 1, 2 * B + 1] + [rng.below(2 * B + 2) for _ in range(sc(ck, 4, 40))])):
             key = rng.bytes(kl)
             msg = rng.bytes(rng.below(2 * B))
             cases.append(["h.new %s %s" % (name, vf.hexs(key)), "h.upd " + vf.hexs(msg[:5]),
@@ -313,7 +322,7 @@ def gen_ref_cases(ck, rng):
     cases.append(["c.key256 " + "00" * 31 + "01", "c.nonce 0 0 " + "00" * 8, "c.ks 64"])
     cases.append(["c.key256 " + "00" * 32, "c.nonce 0 0 " + "00" * 7 + "01", "c.ks 64"])
     edge = [0, 1, 0xfffffffe, 0xffffffff]
-    for i in range(ck.scale(60, 1500)):
+    for i in range(sc(ck, 60, 1500)):
         ops = ["c.key256 " + rng.bytes(32).hex() if rng.chance(4, 5) else "c.key128 " + rng.bytes(16).hex(),
                "c.nonce %d %d %s" % (rng.choice(edge), rng.choice(edge), rng.bytes(8).hex())]
         for _ in range(1 + rng.below(4)):
@@ -326,7 +335,7 @@ def gen_ref_cases(ck, rng):
 
 
 # ------------------------------------------------------------------------------- running
-def par_compare(ck, hcmd, dcmd, cases, label, shard=None, timeout=1800):
+def par_compare(ck, hcmd, dcmd, cases, label, shard=None, timeout=900):
     """run shards of cases in parallel through harness and driver; failing shards are handed to
     ck.compare_cases (shrinks, classifies, writes the replay)"""
     if not cases:
@@ -413,9 +422,8 @@ def run(ck):
     ck.compare_cases(h32, dcmd, corpus, label="corpus-32bit")
     ck.compare_cases(h64, ref, [c for c in corpus if ref_supported(c)], label="corpus-reference")
 
-    intensify = not ck.proof_ok
-    if intensify:
-        ck.tier = "thorough" if ck.tier == "quick" else ck.tier
+    ck.c05_intense = not ck.proof_ok
+    ck.cov["search_intensified"] = ck.c05_intense
 
     md = gen_digest_cases(ck, rng, MD_DIGESTS)
     kd = gen_digest_cases(ck, rng, KECCAK_DIGESTS)
